@@ -145,8 +145,13 @@ func buildSpecialKeyJson(matches []string, values map[string]string) string {
 	for i, val := range matches {
 		json.WriteString(strconv.Itoa(i), val)
 	}
-	for k, v := range values {
-		json.WriteString(k, v)
+	keys := make([]string, 0, len(values))
+	for k := range values {
+		keys = append(keys, k)
+	}
+	sort.Strings(keys) // same keys, same text (map iteration order is random)
+	for _, k := range keys {
+		json.WriteString(k, values[k])
 	}
 	json.Close()
 	return json.String()
